@@ -175,6 +175,12 @@ func Run(c *ev.Ctx) {
 			for r := 1; r < replicas; r++ {
 				w := newWorld()
 				w.ApplyAll(cfg.Ops(t.Node))
+				// this replica is a busy server: right before the last entry it writes a snapshot of its state (raft does
+				// that whenever it likes), which serialises every stored object; nothing replicated may depend on that
+				if _, err := w.Persist(); err != nil {
+					t.Violate("C01:snapshot-fails", err.Error())
+					return
+				}
 				res, _ := w.Apply(t.Op)
 				d2, full2 := digest(w, res)
 				if d2 != d {
@@ -252,7 +258,7 @@ func Run(c *ev.Ctx) {
 	c.Set("cross_process_transitions_compared", compared)
 	c.Set("cross_process_transitions_missing", missing)
 	c.Set("clock_offset_of_second_process", "1000h")
-	c.Set("rule", "BFS over every registered command type (accepted and rejected variants); after every transition the command result and the full 36-table dump plus resource store of N in-process replicas (fresh replays) and one replica in a second OS process whose clock runs 1000h ahead and which applies every entry one hour after the previous one must be byte-identical")
+	c.Set("rule", "BFS over every registered command type (accepted and rejected variants); after every transition the command result and the full 36-table dump plus resource store of N in-process replicas (fresh replays that write a snapshot right before the last entry) and one replica in a second OS process whose clock runs 1000h ahead and which applies every entry one hour after the previous one must be byte-identical")
 	c.Sample(map[string]any{"phases": phases, "alphabet_size": len(cmdlib.Flatten(groups))})
 	c.Assume("Go map iteration order cannot be enumerated; it is sampled by the N replicas of every transition (this part is amplification, not coverage)")
 	c.Assume("the lock-delay map is deliberately not replicated and is not part of the comparison")
